@@ -47,6 +47,18 @@ def main():
     pad = b"\n\ntype padS[T any] struct {\n\tA T `json:\"a,omitempty\"`\n\tB, C string\n}\n\nfunc padF[T comparable](xs []T) (n int) {\nouter:\n\tfor i := range xs {\n\t\tfor j := range xs {\n\t\t\tif xs[i] == xs[j] {\n\t\t\t\tcontinue outer\n\t\t\t}\n\t\t}\n\t\tn++\n\t}\n\tdefer func() { _ = recover() }()\n\treturn n\n}\n\nvar padRaw = `line1\n\tline2`\n"
     for nm, pn, ps, fn, fs in enginegen.golden_pairs():
         pairs.append((pn, ps, fn, fs + pad)); names.append("golden+pad:" + nm)
+    # a package clause on a context line restricts, it does not rename; near-miss package names
+    for pk in ("store", "store_test", "storex", "xstore", "Store", "store_"):
+        for pt in (b"@@\n@@\n package store\n\n-foo()\n+bar()\n", b"@@\n@@\n-package store\n+package store2\n\n-foo()\n+bar()\n",
+                   b"@@\nvar x expression\n@@\n package store\n\n-get(x)\n+fetch(x)\n"):
+            src = ("package %s\n\nfunc f() {\n\tfoo()\n\t_ = get(1)\n}\n" % pk).encode()
+            pairs.append(("p.patch", pt, "a.go", src)); names.append("pkg-clause:%s" % pk)
+    for k in range(600 if thorough else 120):
+        nm, p, f, meta = enginegen.stmt_case(ck.rng, k)
+        pairs.append(("p.patch", p, "a.go", f)); names.append(nm)
+    for k in range(200 if thorough else 40):
+        nm, p, f, meta = enginegen.chain_case(ck.rng, k)
+        pairs.append(("p.patch", p, "a.go", f)); names.append(nm)
     res = enginecorr.run(pairs)
     nsites = 0
     for name, pair, o in zip(names, pairs, res):
